@@ -1,13 +1,17 @@
-(* C19 — executable model of CategoricalClassification.generate_data / _configure_generate_feature /
-   _generate_feature (outrank/algorithms/synthetic_data_generators/cc_generator.py), of
-   generator_naive.generate_random_matrix and of the CSV rows written by
+(* C19 — executable model of CategoricalClassification.generate_data / _ordered_structure /
+   _configure_generate_feature / _generate_feature (outrank/algorithms/synthetic_data_generators/cc_generator.py),
+   of generator_naive.generate_random_matrix and of the CSV rows written by
    task_generators.outrank_task_generate_data_set.
 
    numpy's global RNG is an ANSWER-STREAM ORACLE: every np.random.seed / choice / randint / shuffle
    call of the code consumes the next element of a [list answer] given as an argument; the model
    checks the assumed library behaviour on each answer (kind of call, answer inside the domain,
    right length, distinctness for replace=False, a shuffle result is a permutation of its input)
-   and returns [Err code] otherwise.  No proofs here (Synth/DataGenProofs.v). *)
+   and returns [Err code] otherwise.
+
+   Stated precondition: values inside int32.  The code does not raise outside it (astype('int32')
+   wraps silently); the model returns [Err 9] there and is NOT a model of the code for such runs.
+   No proofs here (Synth/DataGenProofs.v). *)
 From Coq Require Import List Arith ZArith Bool.
 Import ListNotations.
 Open Scope Z_scope.
